@@ -417,3 +417,82 @@ def pp(stmts, ind, rel):
             items.append("%s  (* %s:%d *) SIfLastFilter %s (%s) %s\n%s    (%s)\n%s    (%s)" % (
                 pad, rel, s[6], q(s[1]), s[2], q(s[3]), pad, pp(s[4], ind + 4, rel), pad, pp(s[5], ind + 4, rel)))
     return "block_of_list [\n" + ";\n".join(items) + " ]"
+
+
+class Known:
+    """callees that the IR replaces by their specification: they must exist (once, unconditionally) with the
+    expected signature, and their own bodies are translated and proved against the same specification"""
+
+    def __init__(self): self.needs = []
+    def need(self, ty, fn, line): self.needs.append((ty, fn, line))
+
+
+class Unit:
+    """one source file: struct + inherent impl of one type"""
+
+    def __init__(self, repo, rel, tyname, fields):
+        self.rel, self.path, self.ty = rel, os.path.join(repo, rel), tyname
+        try:
+            self.parser, self.items = rsparse.parse_file(self.path)
+        except Lost as e:
+            e.file = self.path; raise
+        structs = [i for i in self.items if i[0] == "struct" and i[3] == tyname]
+        if len(structs) != 1: self.lost(1, "expected exactly one `struct %s`" % tyname)
+        st = structs[0]
+        if any(a.startswith("cfg") for a in st[2]): self.lost(st[1], "conditionally compiled struct")
+        got = dict(st[4] or [])
+        if got != fields or len(st[4]) != len(fields):
+            self.lost(st[1], "struct %s does not have exactly the fields %s (found %s)" % (tyname, fields, got))
+        impls = [i for i in self.items if i[0] == "impl" and i[3]["trait"] is None and i[3]["self"] == tyname]
+        if len(impls) != 1: self.lost(st[1], "expected exactly one inherent `impl %s`" % tyname)
+        im = impls[0]
+        if im[3]["generics"] or im[3]["where"] or any(a.startswith("cfg") for a in im[2]):
+            self.lost(im[1], "generic or conditional `impl %s`" % tyname)
+        self.fns = {}
+        for it in im[4]:
+            if it[0] != "fn": continue
+            self.fns.setdefault(it[3], []).append(it)
+        # a second definition of the type's methods anywhere else in the file would escape us
+        for i in self.items:
+            if i[0] == "skipped" and i[3] == "macro":
+                for k in range(len(i[4]) - 1):
+                    if i[4][k].text == "impl" and i[4][k + 1].text == tyname:
+                        self.lost(i[1], "`impl %s` inside a macro" % tyname)
+
+    def lost(self, line, what):
+        e = Lost(line, what); e.file = self.path; raise e
+
+    def fn(self, name, params, ret, quals=()):
+        """the unique unconditional fn `name` with exactly this signature"""
+        c = self.fns.get(name, [])
+        if len(c) != 1: self.lost(1, "expected exactly one `fn %s` in `impl %s`, found %d" % (name, self.ty, len(c)))
+        f = c[0]
+        for a in f[2]:
+            if a.startswith("cfg(") or (a.startswith("cfg_attr") and "inline" not in a):
+                self.lost(f[1], "conditionally compiled `fn %s` (#[%s])" % (name, a))
+        got = [(p if p == "self" else "_", t) for p, t in f[4]]
+        want = [(p if p == "self" else "_", t) for p, t in params]
+        if got != want or f[5] != ret:
+            self.lost(f[1], "signature of `%s::%s` is not (%s) -> %s" % (self.ty, name, ", ".join(t for _, t in params), ret))
+        if [x for x in f[8] if x not in ("const",)] != list(quals):
+            self.lost(f[1], "qualifiers of `%s::%s` are %s, expected %s" % (self.ty, name, f[8], list(quals)))
+        return f
+
+    def lower_fn(self, f, ctx, rkind, known, kinds):
+        """kinds: kind of each non-self parameter, in order.  Returns (param names of kind num/nz, stmt list)"""
+        fnl = Fn(ctx, rkind, known)
+        params = []
+        try:
+            for (p, _t), kd in zip([x for x in f[4] if x[0] != "self"], kinds):
+                fnl.sc.bind(p, kd, f[1])
+                if kd in ("num", "nz"): params.append(p)
+            body = self.parser.fn_body(f)
+            out = fnl.stmts(body, True)
+            if rkind == "unit": out.append(("s", "SReturn RUnit", f[7]))
+        except Lost as e:
+            e.file = self.path; raise
+        return params, out, fnl
+
+    def emit_fun(self, name, f, params, stmts):
+        return "(* %s:%d-%d  fn %s *)\nDefinition %s : fundef := mkFun [%s]\n  (%s).\n" % (
+            self.rel, f[1], f[7], f[3], name, "; ".join(q(p) for p in params), pp(stmts, 2, self.rel))
